@@ -241,7 +241,7 @@ def ho_pattern(r, g):
         pat = Abs('x', A, Abs('y', A, Comb(Comb(f, Bound(0)), Bound(1))))
         t = Abs('u', A, Abs('v', A, body))
         return pat, strip_schematic(t), 'miller-2'
-    if c < 0.75:
+    if c < 0.7:
         # ?f ?a where ?a occurs first-order elsewhere: (?a = c) & P (?f ?a)
         f = SVar('f', TFun(A, B))
         av = SVar('a', A)
@@ -253,6 +253,39 @@ def ho_pattern(r, g):
         pat = Comb(Comb(conj, Comb(Comb(eqA, av), av)), Comb(Pp, Comb(f, av)))
         t = Comb(Comb(conj, Comb(Comb(eqA, ta), ta)), Comb(Pp, tb))
         return pat, t, 'applied-to-matched'
+    if c < 0.8:
+        # ?P x against a body that ENDS in the bound variable (a candidate for eta-contraction) and may mention it elsewhere,
+        # nested or at the top
+        P = SVar('P', TFun(A, B))
+        h1 = Var('g', TFun(A, A))
+        k = r.choice([1, 2, 2, 3])
+        def arg():
+            cc = r.random()
+            if cc < 0.35:
+                return Comb(h1, Bound(0))               # the bound variable, nested
+            if cc < 0.5:
+                return Comb(h1, Comb(h1, Bound(0)))
+            if cc < 0.65:
+                return Bound(0)
+            return r.choice([Var('c', A), Comb(h1, Var('c', A))])
+        args = [arg() for _ in range(k - 1)] + [Bound(0)]
+        head = Var('f', TFun(*([A] * k + [B])))
+        body = head
+        for a_ in args:
+            body = Comb(body, a_)
+        if r.random() < 0.5:
+            pat = Abs('x', A, Comb(P, Bound(0)))
+            t = Abs('x', A, body)
+        else:
+            allc = Const('all', TFun(TFun(A, BoolType), BoolType))
+            P = SVar('P', TFun(A, BoolType))
+            head = Var('f', TFun(*([A] * k + [BoolType])))
+            body = head
+            for a_ in args:
+                body = Comb(body, a_)
+            pat = Comb(allc, Abs('x', A, Comb(P, Bound(0))))
+            t = Comb(allc, Abs('x', A, body))
+        return pat, t, 'miller-eta'
     if c < 0.85:
         # heuristic branch under a binder: the head must not take a bound variable along
         g2 = Var('g', TFun(A, A, B))
